@@ -314,8 +314,38 @@ def far_job(args):
             else:
                 res['violations'].append(rep)
                 res['obls'].append((oname, 'violation', rep[1]))
+    # every table written from one computed pattern has the rows of the arrays whose shape was decided above, in whatever
+    # order and however often the tables are written (both far-field options in one run, a report printed twice)
+    for seq in (('db', 'abs'), ('abs', 'db'), ('db', 'db'), ('abs', 'abs')):
+        rep = render_rows(M, nt, npn, seq)
+        oname = '%s/rows of tables written in the order %s' % (name, '+'.join(seq))
+        if rep is None:
+            res['obls'].append((oname, 'discharged', '%d rows each' % (nt * npn)))
+        else:
+            rr = render_rows(mm, nt, npn, seq)
+            if rr is None:
+                res['obls'].append((oname, 'spurious', rep))
+            else:
+                res['violations'].append(('C16:far-field:table-rows', rr, dict(kind='far-rows', nt=nt, np=npn, seq=list(seq))))
+                res['obls'].append((oname, 'violation', rr))
     res['wall'] = time.time() - t0
     return res
+
+
+def render_rows(M, nt, npn, seq):
+    """None if every table of the sequence has nt*npn data rows; else a description."""
+    m = catalogue.build(M, 'G1')
+    m.power = 1.0
+    m.current = np.ones(len(m.pulses), dtype=complex)
+    m.compute_far_field(M.Angle(80.0, -10.0, nt), M.Angle(0.1, 0.1, npn), pwr=100.0, dist=1000.0)
+    ff = m.far_field
+    for k, what in enumerate(seq):
+        txt = ff.db_as_mininec() if what == 'db' else ff.abs_gain_as_mininec()
+        rows = [l for l in txt.split('\n') if l.strip()]
+        if len(rows) != nt * npn:
+            return 'table %d (%s) of the sequence %s written from one far-field pattern has %d rows, requested %d x %d' % (
+                k + 1, 'dBi' if what == 'db' else 'V/m', '+'.join(seq), len(rows), nt, npn)
+    return None
 
 
 def replay_far(mm, nt, npn, t0, ti, p0, pi_):
